@@ -14,6 +14,20 @@ import vlib
 PID = "C16"
 
 
+def with_root(prog):
+    """the specification sees the implicit root explicitly: when a program names the type 'Object', a member-less class Object is
+    added and every class without a declared base (static classes apart) derives from it"""
+    if '"cls": "Object"' not in json.dumps(prog):
+        return prog
+    import copy
+    p = copy.deepcopy(prog)
+    for c in p["classes"]:
+        if not c.get("base") and not c.get("static"):
+            c["base"] = "Object"
+    p["classes"].append(bsyntax.Class("Object", ctors=[bsyntax.Ctor([], [], default=True)]))
+    return p
+
+
 def static_oracle(cases, parts=8, timeout=3000):
     """BlochStatic.Verdict for every case, evaluated by TLC. Returns {id: {"v":..., "rule":...}}"""
     tmp = vlib.scratch("static")
@@ -26,7 +40,7 @@ def static_oracle(cases, parts=8, timeout=3000):
             of = os.path.join(tmp, "out%d.ndjson" % k)
             with open(cfn, "w") as f:
                 for c in sub:
-                    f.write(json.dumps({"id": c["id"], "prog": bsyntax.to_tlc(c["prog"])}) + "\n")
+                    f.write(json.dumps({"id": c["id"], "prog": with_root(bsyntax.to_tlc(c["prog"]))}) + "\n")
             open(of, "w").close()
             r = vlib.tlc("MCBlochStatic.tla", os.path.join(vlib.SPEC, "MCBlochStatic.cfg"), env={"STATIC_CASES": cfn, "STATIC_OUT": of},
                          workers=max(2, vlib.JOBS // parts), timeout=timeout, heap="4g")
